@@ -123,7 +123,9 @@ func (o opts) service() core.ServiceCodec {
 }
 
 func headerValues(rng *rand.Rand) map[string]interface{} {
-	pool := []interface{}{1, -5, 1.5, true, "shared-arg", "v", "", "中文", []interface{}{1, "two"}, map[string]interface{}{"k": "shared-arg"}, nil, int64(1) << 40, []byte("hb")}
+	// (struct values of the types that also occur as arguments: header section and argument list share class definitions or must not)
+	pool := []interface{}{1, -5, 1.5, true, "shared-arg", "v", "", "中文", []interface{}{1, "two"}, map[string]interface{}{"k": "shared-arg"}, nil, int64(1) << 40, []byte("hb"),
+		&gentypes.One{A: 3}, &gentypes.Tree{Name: "header-tree"}, &gentypes.Scalars{I: 4, S: "in-header"}, []interface{}{&gentypes.One{A: 5}, &gentypes.Tree{Name: "t2"}}}
 	m := map[string]interface{}{}
 	for i := rng.Intn(5); i > 0; i-- {
 		m[[]string{"a", "key", "shared-arg", "ключ", "x-y_z", "Simple2"}[rng.Intn(6)]] = pool[rng.Intn(len(pool))]
